@@ -648,6 +648,10 @@ def check_store(w, store_ids, extra=0):
             got = 0 if math.isnan(x) else tok_id(w, x)
             if i == 1 and w.cfg["cause"] == "merge" and x == -5.0 and not (w.overwrite and 1 in ids):
                 continue      # the conflicting value that was on disk before (environment of cause "merge")
+            if got == i and i not in ids and w.cfg["cause"] == "save":
+                # the reap whose save failed had merged this (correct) value into the Harvester's memory already; a later
+                # successful save writes it out: more than was delivered by then, but nothing wrong
+                continue
             if got != (i if i in ids else 0):
                 return "harvester file holds the value of setting %s at setting %d, expected %s" % (got, i, i if i in ids else 0)
     finally:
